@@ -1613,7 +1613,7 @@ func (_neg) exec(vm *vm) {
 		if !math.IsNaN(f) {
 			f = -f
 		}
-		result = valueFloat(f)
+		result = floatToValue(f)
 	}
 
 	vm.stack[vm.sp-1] = result
